@@ -271,6 +271,7 @@ class Gen:
     def pipeline(self, depth):
         s = ('!' + self.sp()) if self.r.random() < 0.1 else ''
         if s and self.r.random() < 0.08: return '!'          # `!` alone (BANG list_terminator)
+        if s and self.r.random() < 0.2: s = s * self.r.choice([2, 2, 3])          # several negations: each `!` is a token and a leaf of its own
         s += self.command(depth)
         for _ in range(self.r.choice([0, 0, 0, 0, 1, 1, 2]) if self.budget > 0 else 0):
             s += self.osp() + self.r.choice(['|', '|', '|&']) + (self.osp() if self.r.random() < 0.8 else self.osp() + self.nl()) + self.command(depth)
